@@ -25,6 +25,8 @@ CHECKS = {
          "Clients register for subsets of event types, disconnect and reconnect while fake backends emit schema (all targets), topology and status events on the current control connection and the control connection is killed and fails over; each event the proxy fully read must reach every client whose schema REGISTER was answered before emission and that is still connected exactly once with equal content, never twice, never an unregistered client, and no topology/status event may reach any client.", "§7 C14"),
  "C16": ("deterministic simulation in simulated hours: node add/remove/restart, pool and control connection loss, stalled nodes on the fake clock; bounded-liveness oracles after the last fault, dial-gap and outage-clock oracles; native sweep of the back-off calculator",
          "Fault sequences (node additions, removals, restarts, event bursts, host outages, pooled/control connection kills single and simultaneous, nodes that stop answering heartbeats) run over minutes to hours of simulated time; after the last fault, within the sum of the configured timeouts, probe requests must be served by exactly the backend's current cluster, removed nodes are no longer dialled, lost connections are replaced with dial gaps inside the back-off bounds that restart near the base after success, unresponsive connections are closed within idle+heartbeat+connect timeout, the control connection fails over, and OutageDuration is zero exactly while a control connection exists. The back-off calculator is swept natively over base/max configurations and 80 attempts.", "§7 C16"),
+ "C13": ("deterministic simulation: generated connection histories over all version bytes, directions, opcodes, maxima and STARTUP option maps with a canary connection; one-frame-per-request and nothing-forwarded oracles",
+         "Hostile connections send generated sequences of OPTIONS/STARTUP/REGISTER/requests with every version byte (0-127, both directions), valid and invalid opcodes and STARTUP option maps under every configured maximum version, each answered frame by frame: exactly one SUPPORTED/READY/ERROR, a protocol error naming the version for known versions outside [v3, max] with the connection still usable, error or close for unknown bytes, ERROR only for unsupported compression; a well-behaved second connection keeps decoding correct, uncompressed answers and the backends see nothing but its requests.", "§7 C13"),
 }
 
 NOT_APPLICABLE = {
